@@ -40,6 +40,11 @@ pub struct Tcp2Cfg {
     pub slaac: bool,
     /// run over Medium::Ethernet (ARP / NDISC between the two real interfaces) instead of raw IP
     pub eth: bool,
+    /// a stalled reader stays stalled across clock advances, also after the peer's FIN and
+    /// through TIME-WAIT expiry (the socket then discards what was not read: that loss is
+    /// the application's doing and waived by C02, but C01 still applies: Finished must not
+    /// be reported for a stream that was not handed over completely)
+    pub lazy_reader: bool,
 }
 
 impl Tcp2Cfg {
@@ -63,6 +68,7 @@ impl Tcp2Cfg {
             timeout_ms: None,
             slaac: false,
             eth: false,
+            lazy_reader: false,
         }
     }
 }
@@ -115,6 +121,8 @@ pub struct End {
     pub addr: IpAddress,
     pub rx_cap: usize,
     pub invalid_seen: bool,
+    /// the socket is CLOSED and refuses reads although the stream was not finished
+    pub gave_up: bool,
 }
 
 impl End {
@@ -215,6 +223,7 @@ impl Tcp2 {
             addr,
             rx_cap: cfg.rx[side],
             invalid_seen: false,
+            gave_up: false,
         }
     }
 
@@ -314,7 +323,13 @@ impl Tcp2 {
                         }
                         break;
                     }
-                    Err(tcp::RecvError::InvalidState) => break,
+                    Err(tcp::RecvError::InvalidState) => {
+                        if sock.state() == State::Closed && !e.gave_up {
+                            e.gave_up = true;
+                            progress = true;
+                        }
+                        break;
+                    }
                 }
             }
         }
@@ -483,7 +498,7 @@ impl Tcp2 {
         self.ends.iter().all(|e| e.state() == State::Closed)
             && self.net[0].is_empty()
             && self.net[1].is_empty()
-            && self.ends.iter().all(|e| e.finished && e.closed)
+            && self.ends.iter().all(|e| (e.finished || (self.cfg.lazy_reader && e.gave_up)) && e.closed)
     }
 
     fn earliest_deadline(&mut self) -> Option<i64> {
@@ -623,8 +638,9 @@ impl Harness for Tcp2 {
                 // nothing more can arrive reads what it has before it goes to sleep; otherwise
                 // TIME-WAIT expiry discards unread data, which is the application's doing.
                 let mut changed = false;
+                let lazy = self.cfg.lazy_reader;
                 for e in self.ends.iter_mut() {
-                    if e.stalled && !matches!(e.state(), State::Established | State::FinWait1 | State::FinWait2) {
+                    if !lazy && e.stalled && !matches!(e.state(), State::Established | State::FinWait1 | State::FinWait2) {
                         e.stalled = false;
                         changed = true;
                     }
@@ -674,6 +690,9 @@ impl Harness for Tcp2 {
             for side in 0..2 {
                 let e = &self.ends[side];
                 let peer = &self.ends[1 - side];
+                if self.cfg.lazy_reader && e.gave_up {
+                    continue; // unread data discarded at TIME-WAIT expiry: the reader's doing
+                }
                 if e.read.len() != peer.data.len() {
                     out.push(Viol::new("C02/closed-with-bytes-missing", format!("{} read {} of {} bytes", ["A", "B"][side], e.read.len(), peer.data.len())));
                 }
@@ -750,6 +769,7 @@ pub fn configs(tier: Tier) -> Vec<(Tcp2Cfg, u32)> {
     let wrap40 = Tcp2Cfg { rx: [64, 256], tx: [40, 16], len: [110, 50], mtu: 100, nagle: false, ..b("txwrap40-bidir") };
     let eth4 = Tcp2Cfg { eth: true, len: [60, 20], ..b("eth-arp") };
     let eth6s = Tcp2Cfg { eth: true, v6: true, mtu: 1280, slaac: true, len: [100, 20], rx: [64, 32], ..b("eth-v6-slaac") };
+    let lazy = Tcp2Cfg { lazy_reader: true, len: [30, 30], b_waits_fin: false, ..b("lazy-reader-through-time-wait") };
     let tiny = Tcp2Cfg { rx: [8, 8], tx: [16, 16], len: [20, 9], mtu: 80, ..b("rx8-bidir") };
     // sweep of stream lengths against a 24-byte transmit ring and a 10-byte peer window: for
     // some lengths the final unsent chunk straddles the end of the ring storage at close()
@@ -760,6 +780,7 @@ pub fn configs(tier: Tier) -> Vec<(Tcp2Cfg, u32)> {
     }
     match tier {
         Tier::Quick => {
+            v.push((lazy, 3));
             v.push((eth4, 2));
             v.push((eth6s, 2));
             v.push((small, 4));
@@ -779,6 +800,7 @@ pub fn configs(tier: Tier) -> Vec<(Tcp2Cfg, u32)> {
             v.push((wrap40, 2));
         }
         Tier::Thorough => {
+            v.push((lazy, 4));
             v.push((eth4, 3));
             v.push((eth6s, 3));
             v.push((small, 5));
